@@ -19,6 +19,9 @@ ImpT == { SE(TRUE, FALSE), SE(FALSE, TRUE) }
               { SE(FALSE, TRUE) \o <<kv("AS", TRUE)>>, <<kv("NE", TRUE)>> \o SE(TRUE, FALSE),
                 SE(FALSE, TRUE) \o <<kv("L", TRUE)>>, SE(TRUE, TRUE) \o <<kv("W", TRUE)>> })
 DerT == { SE(FALSE, TRUE), SE(TRUE, FALSE) } \cup (IF Level = "small" THEN {} ELSE { SE(TRUE, TRUE), SE(FALSE, FALSE) })
+        \* the history attributes cannot be supplied to C_DeriveKey either
+        \cup { SE(FALSE, TRUE) \o <<kv("G", "gen")>>, <<kv("L", TRUE)>> \o SE(FALSE, TRUE), SE(TRUE, FALSE) \o <<kv("AS", TRUE)>>,
+               SE(FALSE, TRUE) \o <<kv("NE", TRUE)>> }
 SetT == { <<kv("S", TRUE)>>, <<kv("S", FALSE)>>, <<kv("E", FALSE)>>, <<kv("E", TRUE)>>, <<kv("W", TRUE)>>, <<kv("W", FALSE)>> }
         \cup (IF Level = "small" THEN {} ELSE
               { <<kv("M", TRUE)>>, <<kv("M", FALSE)>>, <<kv("C", TRUE)>>, <<kv("D", FALSE)>>, <<kv("T", TRUE)>>, <<kv("L", FALSE)>>,
